@@ -91,6 +91,26 @@ DefBlocks(f, v) ==
              nb  == [b EXCEPT !.a = cnt, !.w = IF v % 4 = 0 THEN PrefW(cnt) ELSE IF v % 4 = 1 THEN WidenTo(cnt, 3) ELSE IF v % 4 = 2 THEN 8 ELSE PrefW(cnt)]
          IN [f EXCEPT !.kids[3] = nb, !.w = IF v % 4 = 3 THEN -1 ELSE f.w]
 
+(* An "idle" block: a copy of a block of the file (another one than j, if there is one) without its items (query/responses, address events, malformed messages) *)
+(* but with its preamble, statistics and tables, inserted before block j - what a collector writes for an interval in     *)
+(* which nothing arrived.  A valid file; its other blocks denote what they denoted before.                               *)
+IsKey(k, i) == k.t = MT_UINT /\ Strip(k.a) = FromInt(i)
+RECURSIVE DropItems(_, _)
+DropItems(kids, i) == IF i > Len(kids) THEN <<>>
+                      ELSE (IF IsKey(kids[i], 3) \/ IsKey(kids[i], 4) \/ IsKey(kids[i], 5) THEN <<>> ELSE <<kids[i], kids[i + 1]>>)
+                           \o DropItems(kids, i + 2)
+StripItems(b) == IF b.t # MT_MAP THEN b
+                 ELSE LET ks == DropItems(b.kids, 1) IN [b EXCEPT !.kids = ks, !.a = FromInt(Len(ks) \div 2), !.w = IF b.w = -1 THEN -1 ELSE PrefW(FromInt(Len(ks) \div 2))]
+IdleBlock(f, v) ==
+    IF f.t # MT_ARR \/ Len(f.kids) # 3 \/ f.kids[3].t # MT_ARR \/ Len(f.kids[3].kids) = 0 THEN f
+    ELSE LET bs == f.kids[3].kids
+             j  == 1 + (v % Len(bs))
+             src == 1 + ((v + 1) % Len(bs))           \* the tables of ANOTHER block of the file (if there is one) in front of block j
+             nk == SubSeq(bs, 1, j - 1) \o <<StripItems(bs[src])>> \o SubSeq(bs, j, Len(bs))
+         IN [f EXCEPT !.kids[3].kids = nk,
+                      !.kids[3].a = FromInt(Len(nk)),
+                      !.kids[3].w = IF f.kids[3].w = -1 THEN -1 ELSE PrefW(FromInt(Len(nk)))]
+
 (* ------------------------------ mutations ------------------------------ *)
 RECURSIVE NodeCount(_)
 NodeCount(n) == 1 + (IF n.t \in {MT_ARR, MT_MAP, MT_TAG}
